@@ -249,3 +249,24 @@ Proof.
   unfold r_read_i8, r_read_i16, r_read_i32, r_read_u8, r_read_u16, r_read_u32, read_i8, read_i16, read_i32. rewrite !rd_spec.
   repeat split; [destruct (read_u8 a pos) | destruct (read_u16 a pos) | destruct (read_u32 a pos)]; reflexivity.
 Qed.
+
+(* ------------------------------------------------------------------ signed typed accessors: what was written is read back *)
+Theorem signed_read_after_write a address a' :
+  (forall z, (-128 <= z < 128)%Z -> write_i8 a address z = Ok a' -> read_i8 a' address = Ok z) /\
+  (forall z, (-32768 <= z < 32768)%Z -> write_i16 a address z = Ok a' -> read_i16 a' address = Ok z) /\
+  (forall z, (-2147483648 <= z < 2147483648)%Z -> write_i32 a address z = Ok a' -> read_i32 a' address = Ok z).
+Proof.
+  split; [|split]; intros z Hz Hw.
+  - destruct (signed_round_trip 8 z ltac:(lia) Hz) as [R B]. unfold write_i8 in Hw. unfold read_i8.
+    rewrite (read_after_write_u8 a address (of_signed 8 z) a' B Hw). cbn [bind]. rewrite R. reflexivity.
+  - destruct (signed_round_trip 16 z ltac:(lia) Hz) as [R B]. unfold write_i16, write_u16 in Hw. unfold read_i16, read_u16.
+    rewrite (read_after_write_uint a address 2 (of_signed 16 z) a' B Hw). cbn [bind]. rewrite R. reflexivity.
+  - destruct (signed_round_trip 32 z ltac:(lia) Hz) as [R B]. unfold write_i32, write_u32 in Hw. unfold read_i32, read_u32.
+    rewrite (read_after_write_uint a address 4 (of_signed 32 z) a' B Hw). cbn [bind]. rewrite R. reflexivity.
+Qed.
+(* signed stream writes: the positional signed write at the cursor *)
+Theorem w_write_signed_refines a pos z :
+  w_write_i8 a pos z = (unit_of (write_i8 a pos z), arch_of (write_i8 a pos z) a, if is_ok (write_i8 a pos z) then pos + 1 else pos) /\
+  w_write_i16 a pos z = (unit_of (write_i16 a pos z), arch_of (write_i16 a pos z) a, if is_ok (write_i16 a pos z) then pos + 2 else pos) /\
+  w_write_i32 a pos z = (unit_of (write_i32 a pos z), arch_of (write_i32 a pos z) a, if is_ok (write_i32 a pos z) then pos + 4 else pos).
+Proof. repeat split; apply wr_spec. Qed.
